@@ -63,27 +63,27 @@ Postfix == {<<"Dot", "Ident">>, <<"Lbracket", "Num", "Rbracket">>, <<"Lbracket",
             <<"Dot", "Lbrace", "Ident", "Colon", "Ident", "Rbrace">>}
 RECURSIVE ChainsOf(_)
 ChainsOf(n) == IF n = 0 THEN {<<>>} ELSE LET c == ChainsOf(n - 1) IN c \cup {x \o p : x \in {y \in c : TRUE}, p \in Postfix}
-ChainKinds(z) == LET cs == ChainsOf(N) \ {<<>>}
+ChainKinds(zzdummy) == LET cs == ChainsOf(N) \ {<<>>}
               IN {<<"Ident">> \o c : c \in cs} \cup {<<"At">> \o c : c \in cs} \cup {<<"Not", "Ident">> \o c : c \in cs}
-ChainCases(z) ==
+ChainCases(zzdummy) ==
   LET all == SetToSeq(ChainKinds(0))
       pairs == SetToSeq({<<i, d>> : i \in DOMAIN all, d \in {2, 13, 14}})
   IN [x \in DOMAIN pairs |-> [e |-> "eval", text |-> Spell(Toks(all[pairs[x][1]], 0), "tight", 0), d |-> pairs[x][2]]]
 
 NoAmp(s) == \A i \in DOMAIN s : s[i] # "Amp"
 
-SentCases(z) ==
+SentCases(zzdummy) ==
   LET G == Sets(N)
       all == SetToSeq({s \in UNION {G.E[n] : n \in LO..N} : NoAmp(s)})
       trip == SetToSeq({<<i, j, d>> : i \in DOMAIN all, j \in 0..(ASSIGN - 1), d \in 1..NDOCS})
   IN [x \in DOMAIN trip |-> [e |-> "eval", text |-> Spell(Toks(all[trip[x][1]], trip[x][2]), "spaced", trip[x][2] % 2),
                              d |-> trip[x][3]]]
 
-SpellCases(z) ==
+SpellCases(zzdummy) ==
   LET ps == ndJsonDeserialize(IOEnv.IN)
   IN [i \in DOMAIN ps |-> [e |-> "eval", text |-> Spell(ps[i].toks, "spaced", 0), doc |-> ps[i].doc]]
 
-Cases(z) == IF IOEnv.MODE = "sent" THEN SentCases(0) ELSE IF IOEnv.MODE = "chains" THEN ChainCases(0) ELSE SpellCases(0)
+Cases(zzdummy) == IF IOEnv.MODE = "sent" THEN SentCases(0) ELSE IF IOEnv.MODE = "chains" THEN ChainCases(0) ELSE SpellCases(0)
 ASSUME ndJsonSerialize(IOEnv.OUT, Cases(0))
 ASSUME ndJsonSerialize(IOEnv.OUT \o ".docs", <<[docs |-> DocPool]>>)
 =============================================================================
